@@ -6,21 +6,22 @@ import (
 )
 
 var TabSize = 8
-var indents *container.Stack
-var buffer []antlr.Token
-
-func init() {
-	indents = container.NewStack()
-	buffer = make([]antlr.Token, 32)
-}
 
 type PythonBaseLexer struct {
 	*antlr.BaseLexer
 
-	firstTokenIndex int
-	lastTokenIndex  int
-	opened          int
-	lastToken       antlr.Token
+	// the indentation levels and the emitted tokens not yet handed out, of this lexer (this file) only
+	indents   *container.Stack
+	pending   []antlr.Token
+	opened    int
+	lastToken antlr.Token
+}
+
+func (l *PythonBaseLexer) indentStack() *container.Stack {
+	if l.indents == nil {
+		l.indents = container.NewStack()
+	}
+	return l.indents
 }
 
 func (l *PythonBaseLexer) EmitDefaultToken(tokenType int) {
@@ -54,21 +55,7 @@ func (l *PythonBaseLexer) Emit() antlr.Token {
 func (l *PythonBaseLexer) EmitToken(token antlr.Token) {
 	l.BaseLexer.EmitToken(token)
 
-	if buffer[l.firstTokenIndex] != nil {
-		l.lastTokenIndex = l.IncTokenInd(l.lastTokenIndex)
-
-		if l.firstTokenIndex == l.lastTokenIndex {
-			var newArray = make([]antlr.Token, len(buffer)*2)
-			destIndex := len(newArray) - (len(buffer) - l.firstTokenIndex)
-			copy(newArray, buffer)
-			copy(newArray, buffer[:len(buffer)-l.firstTokenIndex])
-
-			l.firstTokenIndex = destIndex
-			buffer = newArray
-		}
-	}
-
-	buffer[l.lastTokenIndex] = token
+	l.pending = append(l.pending, token)
 	l.lastToken = token
 }
 
@@ -83,8 +70,9 @@ func (l *PythonBaseLexer) DecIndentLevel() {
 }
 
 func (l *PythonBaseLexer) NextToken() antlr.Token {
+	indents := l.indentStack()
 	if l.GetInputStream().LA(1) == antlr.TokenEOF && indents.Len() > 0 {
-		if buffer[l.lastTokenIndex] == nil || buffer[l.lastTokenIndex].GetTokenType() != PythonLexerLINE_BREAK {
+		if l.lastToken == nil || l.lastToken.GetTokenType() != PythonLexerLINE_BREAK {
 			l.EmitDefaultToken(PythonLexerLINE_BREAK)
 		}
 
@@ -97,17 +85,13 @@ func (l *PythonBaseLexer) NextToken() antlr.Token {
 	l.BaseLexer.Virt = l
 	next := l.BaseLexer.NextToken()
 
-	if buffer[l.firstTokenIndex] == nil {
+	if len(l.pending) == 0 {
 		return next
 	}
 
-	var result = buffer[l.firstTokenIndex]
-	buffer[l.firstTokenIndex] = nil
-
-	if l.firstTokenIndex != l.lastTokenIndex {
-		l.firstTokenIndex = l.IncTokenInd(l.firstTokenIndex)
-	}
-
+	// tokens are handed out in the order they were emitted
+	result := l.pending[0]
+	l.pending = l.pending[1:]
 	return result
 }
 
@@ -157,13 +141,10 @@ func (l *PythonBaseLexer) IsNotNewLineOrComment(next string) bool {
 	return l.opened == 0 && next != "\r" && next != "\n" && next != "\f" && next != "#"
 }
 
-func (l *PythonBaseLexer) IncTokenInd(index int) int {
-	return (index + 1) % len(buffer)
-}
-
 func (l *PythonBaseLexer) ProcessNewLine(indent int) {
 	l.EmitDefaultToken(PythonLexerLINE_BREAK)
 
+	indents := l.indentStack()
 	var previous = 0
 	if indents.Len() != 0 {
 		previous = indents.Peak().(int)
